@@ -24,6 +24,7 @@ THEOREMS = [
     'C01_checked_out_once', 'C01_initial_request_once', 'C01_requested_once_without_redirects',
     'C01_terminates', 'C01_final', 'C01_complete_closed', 'C01_complete_path_independent',
     'C01_each_url_requested_once_refuted', 'C01_schedule_independent_refuted', 'C01_one_worker_schedule_independent',
+    'C01_child_batch_size_is_the_source',
 ]
 TRUSTED = [
     'hand-written LTS coq/Model/Engine.v of the crawl engine (session.py, sqltable.py, processor/web.py + rule.py, '
@@ -77,6 +78,21 @@ def case_f29():
              ('h1', '/t'): P('leaf')}
     o = {'recursive': True, 'preq': False, 'level': 3, 'prl': None, 'no_parent': False, 'tries': 1, 'acc': None, 'rej': None,
          'span': False, 'span_preq': False, 'span_linked': False, 'maxredir': None, 'conc': 2}
+    return {'meta': {'pages': pages}, 'opts': o, 'starts': [('h1', '/')], 'start_spellings': [es.canon('h1', '/')]}
+
+
+def case_many_links():
+    """a page with more than 1000 admitted links (most of them spellings of the same page): ItemSession.add_url commits the batch
+    of children in the middle of the scrape when it has grown to 1000 entries, the rest at the check-in"""
+    P = lambda kind, **kw: dict({'kind': kind, 'links': [], 'target': None, 'delay': 0.0, 'code': 200}, **kw)
+    links = [('h1', '/a', False, '/a#f%d' % i) for i in range(998)]
+    links += [('h1', '/b', False, '/b'), ('h1', '/c.html', False, '/zz/../c.html'), ('h1', '/a', False, '/a?'), ('h1', '/d/e2', False, '/d/e2'),
+              ('h1', '/b', False, '/b#x'), ('h1', '/img/1.png', True, '/img/1.png')]
+    pages = {('h1', '/'): P('doc', links=links),
+             ('h1', '/a'): P('leaf'), ('h1', '/b'): P('doc', links=[('h1', '/a', False, 'a'), ('h1', '/t', False, '/t')]),
+             ('h1', '/c.html'): P('leaf'), ('h1', '/d/e2'): P('nodoc', code=404), ('h1', '/t'): P('leaf'), ('h1', '/img/1.png'): P('img')}
+    o = {'recursive': True, 'preq': True, 'level': None, 'prl': None, 'no_parent': False, 'tries': 1, 'acc': None, 'rej': None,
+         'span': False, 'span_preq': False, 'span_linked': False, 'maxredir': None, 'conc': 1}
     return {'meta': {'pages': pages}, 'opts': o, 'starts': [('h1', '/')], 'start_spellings': [es.canon('h1', '/')]}
 
 
@@ -171,7 +187,7 @@ def classify(v):
 
 # --------------------------------------------------------------------------
 def gen_cases(r, n, thorough=False):
-    cases = [('f28', case_f28()), ('f29', case_f29()), ('root-first', case_root_first())]
+    cases = [('f28', case_f28()), ('f29', case_f29()), ('root-first', case_root_first()), ('many-links', case_many_links())]
     for i in range(n):
         kind = i % 6
         if kind == 0:
@@ -240,6 +256,12 @@ def _features(case, result):
             dup_ignored += batches[rec['n']] - len(rec['added'])
     return {'rows': len(run['res']['rows']), 'ignored_duplicate_inserts': dup_ignored,
             'requests': len(run['res']['requests'])}
+
+
+def pregen(ctx):
+    """regenerate coq/Gen/Consts.v (the batch size of ItemSession.add_url among others) from the working tree"""
+    from harness.translate import consts
+    return consts.generate(ctx.repo)
 
 
 def correspondence(ctx):
@@ -334,6 +356,7 @@ LEVEL_NOTE = (
     'Trusted: Coq kernel + vm_compute; the hand-written LTS and filter model, tied to the code by replaying the recorded table '
     'transactions and request logs of real end-to-end crawls on the model in every run; scraper output order, regex verdicts, '
     'asyncio scheduling, SQLite atomicity are inputs/assumptions. Not modelled: robots.txt (runs use --no-robots), cookies, '
-    'authentication, FTP, plugins, the >= 1000-children mid-scrape flush.')
+    'authentication, FTP, plugins. The batched commit of a visit\'s children (every 1000 admitted links, in the middle of the scrape) is in the model '
+    '(flush; size tied to the source by C01_child_batch_size_is_the_source) and exercised by a listed site with 1004 links on one page.')
 TECHNIQUE = ('Coq invariants by induction over the reachable states of an LTS (all interleavings), termination by a measure; '
              'vm_compute trace replay of real crawls on the model')
